@@ -18,7 +18,9 @@ const ENDS: [&str; 18] = ["1", "1", "1", "1.0", "0x1", "0x10", "2", "1e0", "0.5"
 const OPERANDS: [&str; 8] = ["x", "1", "-1", "(x)", "f()", "t.n", "#t", "2 ^ 3"];
 
 fn wrap(r: &mut Rng, body: &str) -> String {
-    match r.below(9) {
+    match r.below(11) {
+        9 => format!("q0 = 1\n{body}\n"),
+        10 => format!("local q1 = 2\nq1 = q1 + 1\n{body}\nprint(q1)\n"),
         0 | 1 => body.to_string(),
         2 => format!("do\n{body}\nend\n"),
         3 => format!("local function g()\n{body}\nend\nprint(g)\n"),
